@@ -53,7 +53,7 @@ package round
 // the round handed back belongs to the same session and is one of the rounds it announced (every implementation
 // ensures result0.Number() <= its Helper's FinalRoundNumber and hands the Helper on; FinalRoundNumber() reads that field)
 //@   ensures result1 == nil ==> (result0.Number() <= self.(Session).FinalRoundNumber() && result0.FinalRoundNumber() == self.(Session).FinalRoundNumber())
-//@   assumes A-GETTER: Session.FinalRoundNumber() returns Helper.info.FinalRoundNumber (one-line getter of a field written only by NewSession) and the round handed back by Finalize carries the same Helper; the implementations prove result0.Number() <= Helper.info.FinalRoundNumber
+//@   assumes A-GETTER: the round handed back by Finalize embeds the same Helper as the round that produced it (every implementation builds it from r or r.Helper), so the field-level bound each Finalize proves (result0.Number() <= Helper.info.FinalRoundNumber) is the bound on FinalRoundNumber() the handler uses. The rest of the link is checked: FinalRoundNumber() dispatches to (*Helper).FinalRoundNumber (side condition soledecl), which returns Helper.info.FinalRoundNumber (its contract), a field nothing writes after NewSession (side condition immutable)
 
 //@ interface Round method VerifyMessage
 //@   modifies shared
@@ -153,3 +153,47 @@ package round
 //@   ensures[C20,C05] (result1 == nil && info.Group != nil) ==> forall(x, party.ID, inslice(result0.partyIDs, x) ==> idsc(x) != s_zero())
 //@   loop 1: invariant each(partyIDs[:rangeindex+1], x, idsc(x) != s_zero())
 //@   ensures result1 == nil ==> (result0.hash != nil && result0.hash.h != nil && result0.info.Group == info.Group && result0.info.SelfID == info.SelfID && result0.info.Threshold == info.Threshold && result0.info.FinalRoundNumber == info.FinalRoundNumber && result0.info.ProtocolID == info.ProtocolID && fresh(result0) && !held(result0.mtx))
+
+// ---- the getters the handlers reason with (C04, C05, C09): each returns the field NewSession filled. They are one-line
+// methods that callers inline; the contracts pin the bodies, so that what remains of A-GETTER is (i) Go's method
+// promotion (no round type declares a FinalRoundNumber/SelfID/... of its own: they all reach these through the embedded
+// *Helper) and (ii) that nothing writes Helper.info after NewSession.
+// Both side conditions are scanned over the whole module's code on every check:
+//@ immutable[C04,C05,C09] Helper.info
+//@ soledecl[C04,C05] FinalRoundNumber Helper
+//@ func (*Helper).FinalRoundNumber
+//@   inline
+//@   nopanic[C05]
+//@   requires h != nil
+//@   modifies nothing
+//@   ensures[C04,C05] result == h.info.FinalRoundNumber
+//@ func (*Helper).ProtocolID
+//@   inline
+//@   nopanic[C05]
+//@   requires h != nil
+//@   modifies nothing
+//@   ensures[C09] result == h.info.ProtocolID
+//@ func (*Helper).SelfID
+//@   inline
+//@   nopanic[C05]
+//@   requires h != nil
+//@   modifies nothing
+//@   ensures[C09,C04] result == h.info.SelfID
+//@ func (*Helper).SSID
+//@   inline
+//@   nopanic[C05]
+//@   requires h != nil
+//@   modifies nothing
+//@   ensures[C09] result == h.ssid
+//@ func (*Helper).PartyIDs
+//@   inline
+//@   nopanic[C05]
+//@   requires h != nil
+//@   modifies nothing
+//@   ensures[C09,C04] result == h.partyIDs
+//@ func (*Helper).OtherPartyIDs
+//@   inline
+//@   nopanic[C05]
+//@   requires h != nil
+//@   modifies nothing
+//@   ensures[C04] result == h.otherPartyIDs
